@@ -204,12 +204,15 @@ def ensure_with_snapshot(name, capture, cond):
 
         def make(orig):
             def _snap(args, kwargs):
-                return capture(*args, **kwargs)
+                # pre-state + the option containers as the caller passed them
+                return (capture(*args, **kwargs), tuple(_snap_options(x) for x in args),
+                        {kk: _snap_options(v) for kk, v in kwargs.items()})
 
             def _post(args, kwargs, result, OLD):
                 count('eval:' + name)
                 try:
-                    cond(result, OLD.pre, *args, **kwargs)
+                    pre, a2, k2 = OLD.pre
+                    cond(result, pre, *a2, **k2)
                 except Exception:
                     count('monitor_error:' + name)
                     if COUNTS['monitor_error:' + name] <= 3:
@@ -236,10 +239,12 @@ def ensure_with_snapshot(name, capture, cond):
             @functools.wraps(orig)
             def wrapper(*a, **k):
                 pre = capture(*a, **k)
+                a2 = tuple(_snap_options(x) for x in a)
+                k2 = {kk: _snap_options(v) for kk, v in k.items()}
                 result = orig(*a, **k)
                 count('eval:' + name)
                 try:
-                    cond(result, pre, *a, **k)
+                    cond(result, pre, *a2, **k2)
                 except Exception:
                     count('monitor_error:' + name)
                     if COUNTS['monitor_error:' + name] <= 3:
